@@ -273,8 +273,11 @@ def _encodings_clause(ctx, env, rnd, search):
     lines, groups = [], []
     n = 30 if ctx.thorough or search else 6
     for k in range(n):
-        crops = rnd.choice([(("SM", ""), ("SOY", "000")), (("WW", ""), ("SM", "")), (("ZR", ""), ("SW", "")), (("K", ""), ("WG", ""))])
+        allc = [(("SM", ""), ("SOY", "000")), (("WW", ""), ("SM", "")), (("ZR", "chrnew"), ("SW", "")), (("K", ""), ("WG", "")), (("SOY", "ii"), ("OA", ""))]
+        crops = allc[k] if k < len(allc) else rnd.choice(allc)
         P = F.base_project(rnd, crops=crops, years=(1980, 1983))
+        P.soil = F.gen_soil(rnd, hydraulic=(k % 4 != 0))     # every 4th: table route (texture, density class, stone decide)
+        P.cfg["PTF"] = 0 if k % 4 == 0 else rnd.choice([0, 0, 1, 2, 3, 4])
         if k % 2:       # a shipped profile, python-rendered to CSV
             hs, first = F.parse_soil_txt(os.path.join(env.ex, "project", "ex1", "soil_ex1.txt"), rnd.choice(["002", "005", "075", "160", "041"]))
             if hs and first:
